@@ -5,7 +5,7 @@
  "enforce": ["doevent"],
  "replace": [],
  "annotate": ["events/events.c"],
- "defines": ["VERIF_HALLOC"],
+ "defines": ["VERIF_HALLOC", "EV_WITH_POOL"],
  "matrix": {"PLEN": [0, 4095, 4096]},
  "models": ["models/ev_atexit.c"],
  "cbmc": ["--malloc-may-fail", "--malloc-fail-null"],
